@@ -305,12 +305,12 @@ pub fn run(ctx: &Ctx) {
     ctx.generated(
         "random-tails",
         "prec",
-        t.pick(200_000, 10_000_000),
+        t.pick(600_000, 10_000_000),
         "1..max digits; tie / near-tie / all-nines tails; p at the tail cut, = / -1 / +1..6 of the digit count, tiny, anywhere; scales incl. the i64 ends where the new scale stays representable; zeros; both signs",
         move || prec_strategy(max_len),
         check_prec,
     );
     ctx.generated("extreme-scales", "prec", t.pick(50_000, 500_000), "scales within 80 of i64::MIN / i64::MAX with p such that the resulting scale is representable", extreme_scale_strategy, check_prec);
-    ctx.generated("context-sums-designed-tails", "sum", t.pick(100_000, 3_000_000), "a + b whose exact sum has a tie / near-tie / all-nines / zero tail at the p-th digit (b = S - a); p at the cut, = digits, above, below", move || designed_sum_strategy(max_len.min(300)), check_sum);
-    ctx.generated("context-sums", "sum", t.pick(100_000, 5_000_000), "a + b rounded by Context::add_refs / add_refs_into: gaps 0..700, cancellations, all-nines carries, p in 1..120 (a quarter up to 900, beyond the digits of the sum)", move || sum_strategy(max_len.min(400)), check_sum);
+    ctx.generated("context-sums-designed-tails", "sum", t.pick(300_000, 3_000_000), "a + b whose exact sum has a tie / near-tie / all-nines / zero tail at the p-th digit (b = S - a); p at the cut, = digits, above, below", move || designed_sum_strategy(max_len.min(300)), check_sum);
+    ctx.generated("context-sums", "sum", t.pick(300_000, 5_000_000), "a + b rounded by Context::add_refs / add_refs_into: gaps 0..700, cancellations, all-nines carries, p in 1..120 (a quarter up to 900, beyond the digits of the sum)", move || sum_strategy(max_len.min(400)), check_sum);
 }
